@@ -255,6 +255,22 @@ def evalNode (k : NodeKind) (w : Nat) (ins : Ins) : BV4 :=
   | .prio => evalPrio w ins
   | .const v => v
 
+/-! ## Node_Pin, tristate (`Node_Pin.cpp:52-83`); inputs `[data, outputEnable, external]`
+
+Not a `NodeKind` (its third operand is not a node input but the pin's internal state; `Netlist.lean` has `NetKind.tristate`).
+`external` is what the test bench drives onto the pad (`simProcSetInputPin`, kept in the pin's internal state).  An output
+enable without state (no enable connected) counts as enabled.  An **undefined** enable makes the read-back undefined — the DEFINED
+plane of the enable is consulted before its VALUE plane; enabled: the driven data overrides the pad; disabled: the external value. -/
+
+def evalTristate (w : Nat) (ins : Ins) : BV4 :=
+  match ins.getD 1 none with
+  | none => copyIn w (ins.getD 0 none)
+  | some en =>
+    match en.bit 0 with
+    | .x => undef w
+    | .t => copyIn w (ins.getD 0 none)
+    | .f => copyIn w (ins.getD 2 none)
+
 /-! ## guards: when does the real node neither throw nor read outside its inputs (widths only) -/
 
 def rangeOk (widths : List (Option Nat)) (r : Range) : Bool :=
